@@ -20,8 +20,10 @@ import (
 	"time"
 
 	"github.com/Comcast/rulio/core"
+	"github.com/Comcast/rulio/cron"
 	"github.com/anishathalye/porcupine"
 
+	"verif/lib/cronner"
 	"verif/lib/drv"
 	"verif/lib/hook"
 	"verif/lib/ref"
@@ -79,6 +81,10 @@ func eventOut(m map[string]string, group string, flagOf func(id string) bool) st
 	return strings.Join(res, ",")
 }
 
+// hooked: the history under judgement ran on a state with add/remove hooks (cron.AddHooks), as every
+// location of a sys.System has.
+var hooked bool
+
 func step(state, input, output interface{}) (bool, interface{}) {
 	st := state.(string)
 	in := input.(In)
@@ -92,11 +98,20 @@ func step(state, input, output interface{}) (bool, interface{}) {
 		m["I|"+in.Id] = "R|" + in.Group + "|" + in.Tag
 		return out == "ok", unparse(m)
 	case "remFact", "remRule":
+		if _, have := m["I|"+in.Id]; !have && hooked {
+			// with remove hooks (as the System wires them) removing an absent id changes nothing and is
+			// reported as not found by the hook's look-up (or as done, when the look-up still saw the id)
+			return out == "ok" || (strings.HasPrefix(out, "ERR:") && strings.Contains(out, "not found")), st
+		}
 		delete(m, "I|"+in.Id)
 		delete(m, "D|"+in.Id)
 		return out == "ok", unparse(m)
 	case "enable":
 		if in.On {
+			if _, have := m["D|"+in.Id]; !have && hooked {
+				// enabling = removing the flag: absent flag, same error
+				return out == "ok" || (strings.HasPrefix(out, "ERR:") && strings.Contains(out, "not found")), st
+			}
 			delete(m, "D|"+in.Id)
 		} else {
 			m["D|"+in.Id] = "1"
@@ -634,7 +649,23 @@ func main() {
 		family := families[h%4]
 		kind := drv.Kinds[(h/4)%2]
 		store := drv.MustMem()
-		loc, err := drv.NewLoc("L", kind, store)
+		hooked = (h/8)%2 == 1
+		var loc *core.Location
+		var err error
+		if hooked {
+			// the state gets the hooks the System gives every location (they run inside Add and Rem)
+			hctx := drv.Ctx()
+			var st core.State
+			st, err = drv.NewState(hctx, kind, "L", store)
+			if err == nil {
+				err = cron.AddHooks(hctx, cronner.New(true), st)
+			}
+			if err == nil {
+				loc, err = core.NewLocation(hctx, "L", st, nil)
+			}
+		} else {
+			loc, err = drv.NewLoc("L", kind, store)
+		}
 		if err != nil {
 			r.Violate("", "cannot build location", nil)
 			break
@@ -735,6 +766,9 @@ func main() {
 			hasErr := false
 			for _, x := range hist {
 				if strings.HasPrefix(x.Out, "ERR:") {
+					if hooked && strings.Contains(x.Out, "not found") {
+						continue // the hooks' answer for an absent id; the models know it
+					}
 					hasErr = true
 					wit["error_output"] = x.Out
 				}
